@@ -33,6 +33,7 @@ type Mem struct {
 	// whole space is mapped by two interleaved objects, even and odd cells, that share this image)
 	Misrouted bool
 	MisAddr   uint32
+	inNested  bool
 }
 
 // cellProxy is one of the two memory objects the buses are populated with: it owns the 16-byte cells
@@ -40,6 +41,9 @@ type Mem struct {
 type cellProxy struct {
 	m      *Mem
 	parity uint32
+	// reenter: while serving an access the object makes a bus access of its own (as a device that
+	// forwards a mirror, or DMA/MMIO hardware, would): the bus must not lose track of the outer access
+	reenter func(a uint32)
 }
 
 func (p *cellProxy) check(a uint32) {
@@ -47,8 +51,30 @@ func (p *cellProxy) check(a uint32) {
 		p.m.Misrouted, p.m.MisAddr = true, a
 	}
 }
-func (p *cellProxy) Read(a uint32) byte     { p.check(a); return p.m.Read(a) }
-func (p *cellProxy) Write(a uint32, v byte) { p.check(a); p.m.Write(a, v) }
+func (p *cellProxy) nested(a uint32) {
+	if p.reenter != nil && !p.m.inNested {
+		p.m.inNested = true
+		p.reenter(a&0xFFFFFF ^ 0x800010)
+		p.m.inNested = false
+	}
+}
+func (p *cellProxy) Read(a uint32) byte {
+	if p.m.inNested {
+		return p.m.Peek(a) // the object's own access: not part of the instruction's access log
+	}
+	p.check(a)
+	v := p.m.Read(a)
+	p.nested(a)
+	return v
+}
+func (p *cellProxy) Write(a uint32, v byte) {
+	if p.m.inNested {
+		return
+	}
+	p.check(a)
+	p.m.Write(a, v)
+	p.nested(a)
+}
 func (p *cellProxy) Shutdown()              {}
 func (p *cellProxy) Size() uint32           { return 0 }
 func (p *cellProxy) Clear()                 {}
@@ -204,7 +230,8 @@ type Pri struct {
 func NewPri() *Pri {
 	b, _ := bus.New()
 	m := &Mem{}
-	px := [2]*cellProxy{{m, 0}, {m, 1}}
+	re := func(a uint32) { b.EaRead(a) }
+	px := [2]*cellProxy{{m, 0, re}, {m, 1, re}}
 	for cell := uint32(0); cell < 1<<20; cell++ {
 		if err := b.Attach(px[cell&1], "cell", cell<<4, cell<<4|15); err != nil {
 			panic(err)
@@ -275,7 +302,8 @@ func NewAlt() *Alt {
 	c := &cpualt.CPU{}
 	c.Init()
 	m := &Mem{}
-	px := [2]*cellProxy{{m, 0}, {m, 1}}
+	re := func(a uint32) { c.Bus.EaRead(a) }
+	px := [2]*cellProxy{{m, 0, re}, {m, 1, re}}
 	for cell := uint32(0); cell < 1<<20; cell++ {
 		c.Bus.AttachReader(cell<<4, cell<<4|15, px[cell&1].Read)
 		c.Bus.AttachWriter(cell<<4, cell<<4|15, px[cell&1].Write)
